@@ -75,3 +75,15 @@ Theorem C12_ident_nan_refuted :
   = Some (EBin OGt (ESpecial 2) (EInt 1)).
 Proof. vm_compute. reflexivity. Qed.
 Print Assumptions C12_ident_nan_refuted.
+
+(* a negative member of an IN set changes sign: parseSet skips the sign token *)
+Theorem C12_in_set_negative_refuted :
+  parse_set (set_print_toks [SNum true 1 []; SNum false 2 []]) = Some [SNum false 1 []; SNum false 2 []].
+Proof. vm_compute. reflexivity. Qed.
+Print Assumptions C12_in_set_negative_refuted.
+
+(* a regex literal with a raw line feed prints verbatim and is rejected by the delimited regex reader *)
+Theorem C12_regex_newline_refuted :
+  regex_delim (regex_escape [97; 10; 98] ++ [47]) [] = None /\ regex_raw ([97; 10; 98] ++ [47]) true [] = Some ([97; 10; 98], []).
+Proof. split; vm_compute; reflexivity. Qed.
+Print Assumptions C12_regex_newline_refuted.
